@@ -2090,9 +2090,15 @@ class subarray : public const_subarray<T, D, ElementPtr, Layout> {
 		return *this;
 	}
 
+	// at rank 0 the right-hand side is an element (or converts to one), not a range of subarrays
+	template<multi::dimensionality_type DD = D, std::enable_if_t<(DD == 0), int> = 0>  // NOLINT(modernize-use-constraints)  TODO(correaa) for C++20
+	constexpr auto operator=(typename subarray::element const& elem) &  -> subarray& { adl_copy_n(&elem, 1, this->base_); return *this; }
+	template<multi::dimensionality_type DD = D, std::enable_if_t<(DD == 0), int> = 0>  // NOLINT(modernize-use-constraints)  TODO(correaa) for C++20
+	constexpr auto operator=(typename subarray::element const& elem) && -> subarray& { adl_copy_n(&elem, 1, this->base_); return *this; }
+
 	template<
 		class Range,
-		class = std::enable_if_t<! std::is_base_of_v<subarray, Range> >,
+		class = std::enable_if_t<! std::is_base_of_v<subarray, Range> && (D != 0)>,
 		class = std::enable_if_t<! is_subarray<Range>::value>  // NOLINT(modernize-use-constraints)  TODO(correaa) for C++20
 	>
 	constexpr auto operator=(Range const& rng) &  // TODO(correaa) check that you LHS is not read-only?
@@ -2104,7 +2110,7 @@ class subarray : public const_subarray<T, D, ElementPtr, Layout> {
 
 	template<
 		class Range,
-		class = std::enable_if_t<! std::is_base_of_v<subarray, Range> >,  // NOLINT(modernize-use-constraints) TODO(correaa) in C++20
+		class = std::enable_if_t<! std::is_base_of_v<subarray, Range> && (D != 0)>,  // NOLINT(modernize-use-constraints) TODO(correaa) in C++20
 		class = std::enable_if_t<! is_subarray<Range>::value          >  // NOLINT(modernize-use-constraints) TODO(correaa) in C++20
 	>
 	constexpr auto operator=(Range const& rng) && -> subarray& {operator=(rng); return *this;}
